@@ -10,3 +10,13 @@ mod migration;
 mod recover;
 pub mod service;
 mod sync;
+
+// verif hook H1: lets /verif drive single coordinator rounds without the TCP API service.
+#[cfg(feature = "verif")]
+pub mod verif_export {
+    pub use super::core::*;
+    pub use super::detector::*;
+    pub use super::migration::*;
+    pub use super::recover::*;
+    pub use super::sync::*;
+}
